@@ -237,7 +237,7 @@ class SpecGen:
         r, cfg = self.rng, self.cfg
         x = r.random()
         nm = f"f{len(self.nodes)}"
-        if cfg.get("lib_steps") and r.random() < 0.3:
+        if cfg.get("lib_steps") and r.random() < 0.4:
             # a step from labrea.functions (the library's own helpers), possibly with an Evaluatable argument
             expr = r.choice(LIB_STEPS_LOCAL if cfg["lib_steps"] == "all" and r.random() < 0.3 else LIB_STEPS)
             return {"t": "lib", "expr": expr, "refs": {"p": self.pick_any()} if "{p}" in expr else {}}
